@@ -100,6 +100,17 @@ CHECKS["C25"] = ("vcheck", "proptest trees of zone files written to a scratch di
     "Generated search with shrinking over trees of <= 6 files (sub-directories, quoted/escaped/absolute paths, origin arguments, $ORIGIN/$TTL inside includes, records depending on inherited owner/TTL/class/origin right after an include, missing files, depth limits 0-4).",
     "Trusts vmodel::zonefile. Flattening is skipped (counted) when the includer's origin is unset at an include, because no directive can reset the origin to 'unset'.", "§4 C25")
 
+_Q = "The library is a generated copy of /repo/src (harness/qshuttle/gen.sh, regenerated on every run) whose only difference is that the `use std::sync / std::thread / std::time` lines of src/thread.rs, src/server/mod.rs and src/server/rrl.rs point at harness/qshuttle/vshim.rs; interleavings are explored at synchronisation operations; schedules are sampled (random + PCT), not enumerated."
+CHECKS["C28"] = ("qshuttle", "randomised schedule exploration (shuttle random + PCT schedulers) of proptest workloads of 2-4 threads issuing identical UDP queries at a rate-limited server; oracle = exact count: full responses = min(requests, rate x window), the rest limited as the slip setting prescribes",
+    "Generated search with shrinking over workloads (threads x bursts, limit 1-6, slip 0/1/2, table size 1/3/64, NOERROR/NXDOMAIN/error streams, optional second stream) x 80-300 schedules each; logical clock frozen so every burst falls within one second; failing schedule stored with the replay file.",
+    _Q, "§4 C28")
+CHECKS["C29"] = ("qshuttle", "randomised schedule exploration (shuttle random + PCT schedulers) of the unmodified thread-pool source with condition-variable timeouts that can fire at any scheduling point; proptest workloads (workers, lingering, submitters, shut-down points, injected spawn failure); oracle = ledger invariants over the history of every execution",
+    "Generated search with shrinking over workloads x 60-250 schedules each. Ledger: accepted => ran exactly once and had finished when await_shutdown returned; rejected => never ran; nothing runs after await_shutdown returned; submissions begun after a shut-down returned are rejected with ShuttingDown; no deadlock (shuttle's detector), every call returns.",
+    _Q + " Executions that hit the 20000-step bound (unfair PCT schedules spinning in the respawn loop after a pool-only shut-down) are abandoned and counted, not judged.", "§4 C29")
+CHECKS["C32"] = ("qshuttle", "randomised schedule exploration (shuttle random + PCT schedulers) of proptest workloads: a swapper replacing catalogs and TSIG key sets while 2-3 threads issue signed/unsigned queries whose every record encodes the catalog generation; oracle = invariant over each response (one generation, inside the [installed-before, begun-by-return] bracket; MAC under the signing generation's key or a consistent BADSIG)",
+    "Generated search with shrinking over workloads (2-4 generations, swap order, five query kinds covering answer/authority/additional sections, UDP/TCP) x 60-250 schedules each.",
+    _Q + " TSIG times use the real clock with a one-hour fudge.", "§4 C32")
+
 NOT_YET = {}
 
 def main():
@@ -136,6 +147,8 @@ def main():
         "engines": [
             {"name": "vcheck", "path": "harness/vchecks", "serves_properties": sorted(k for k,v in CHECKS.items() if v[0]=="vcheck"),
              "kind_free_text": "proptest generators + independent reference models (harness/vmodel), sharded over 16 threads, shrunk failures stored as replay files"},
+            {"name": "qshuttle", "path": "harness/qshuttle", "serves_properties": sorted(k for k,v in CHECKS.items() if v[0]=="qshuttle"),
+             "kind_free_text": "shuttle (randomised schedule exploration, random + PCT) over a generated copy of /repo/src whose std::sync/thread/time imports point at a shim with firing condition-variable timeouts and a logical clock; workloads are proptest values and shrink; failing schedules are stored in the replay file"},
         ],
         "checks": checks,
         "not_applicable": na,
